@@ -3,6 +3,7 @@ CONSTANTS
   Locked = TRUE
   Bodies <- BodiesT
   Modes <- AllModes
+  ValueChoices <- TwoValueLists
   Seconds <- SecondsQ
   TickMs <- Ticks2
   MaxTicks = 8
